@@ -43,8 +43,13 @@ class Chooser:
 
 
 # ---- job construction ------------------------------------------------------------------------------------
-def make_task_fn(name, outputs):
-    """a callable whose value identifies the task, the output and EVERY argument with its position / keyword"""
+def make_task_fn(name, outputs, none=False):
+    """a callable whose value identifies the task, the output and EVERY argument with its position / keyword
+    (none=True: a task whose value is None - a legitimate value that must travel unchanged; never requested by the caller, see the known finding on None outputs)"""
+    if none:
+        def h(*args, **kwargs):
+            return None
+        return h
     if len(outputs) == 1:
         def f(*args, **kwargs):
             return (name, tuple(args), tuple(sorted(kwargs.items())))
@@ -76,7 +81,7 @@ def build_job(spec: JobSpec):
         if t.get("share") is not None and t["share"] in shared:
             tasks[name] = shared[t["share"]]  # the SAME TaskInstance object under a second task id
             continue
-        fn = make_task_fn(t.get("share", name), t["outputs"])
+        fn = make_task_fn(t.get("share", name), t["outputs"], none=bool(t.get("none")))
         d = TaskDefinition(func=TaskDefinition.func_enc(fn), environment=[], entrypoint="", input_schema={},
                            output_schema={o: "Any" for o in t["outputs"]}, needs_gpu=t.get("gpu", False))
         tasks[name] = TaskInstance(definition=d, static_input_kw=dict(t.get("static_kw", {})), static_input_ps={str(k): v for k, v in t.get("static_ps", {}).items()})
@@ -109,7 +114,9 @@ def sequential_eval(spec: JobSpec):
                 args = [ps.get(i) for i in range(n)]
                 outs = sorted(t["outputs"])  # the runner binds yielded values to outputs in sorted-key order (declared contract)
                 label = t.get("share", k)
-                if len(t["outputs"]) == 1:
+                if t.get("none"):
+                    vals[(k, t["outputs"][0])] = None
+                elif len(t["outputs"]) == 1:
                     vals[(k, t["outputs"][0])] = (label, tuple(args), tuple(sorted(kw.items())))
                 else:
                     for idx, o in enumerate(outs):
@@ -614,6 +621,13 @@ def shaped_jobs():
         edges = [(f"t{i}", "0", f"t{i+1}", 0) for i in range(n - 1)]
         out.append(JobSpec(tasks, edges, [(f"t{n-1}", "0")]))
         out.append(JobSpec(dict(tasks), list(edges), [(f"t{i}", "0") for i in range(n)]))
+    # a task whose value is None (not requested itself): consumed on the same worker and, through shared memory, on other hosts
+    tasks = {"n": {"outputs": ["0"], "static_ps": {}, "static_kw": {}, "none": True}}
+    edges = []
+    for i in range(3):
+        tasks[f"c{i}"] = {"outputs": ["0"], "static_ps": {}, "static_kw": {}}
+        edges.append(("n", "0", f"c{i}", 0 if i != 1 else "k"))
+    out.append(JobSpec(dict(tasks), list(edges), [(f"c{i}", "0") for i in range(3)]))
     # two components + isolated task
     tasks = {k: {"outputs": ["0"], "static_ps": {}, "static_kw": {}} for k in ("a", "b", "c", "d", "iso")}
     out.append(JobSpec(tasks, [("a", "0", "b", 0), ("c", "0", "d", "k")], [("b", "0"), ("d", "0"), ("iso", "0")]))
